@@ -27,13 +27,9 @@ def jobs(tier, ctx):
                 if j:
                     j['opt_witness'] = j['opt_witness'] + ['index_in_range', 'index_out_of_range']
                     out.append(j)
-    # (b) byte-block arrays from the real allocator (struct hack as the driver allocates it: CBMC bounds failures are exact),
-    #     concrete (size, index) pairs including the boundary and 32-bit-truncation indices; thorough tier (14 GB, ~5 min each)
-    idx = [] if tier == 'quick' else [-1, 0, 2, 4294967296]
-    for op in ('F_INDEX', 'F_RINDEX'):
-        for ln in (2,):
-            for k in idx:
-                add(op, ['NUM', 'ARRM'], extra_defs=['NUMK0=%dLL' % k, 'LENK1=%d' % ln], tag='len%d.i%s' % (ln, str(k).replace('-', 'm')))
+    # (byte-block arrays from the real allocator with concrete (size, index) pairs were the first encoding of these jobs: they need
+    #  > 14 GB each and are gone; what they added - CBMC bounds failures exact to the allocated size - is replaced by the
+    #  index oracle above: an access outside 0..n-1 that does not raise an error is reported)
     # element lvalues (a[i] = ..., a[<i] = ...): the index stays fully symbolic (no element is read by these opcodes)
     for op in ('F_INDEX_LVALUE', 'F_RINDEX_LVALUE'):
         for c in ('LVARR', 'LVSTR', 'LVBUF'):
